@@ -67,8 +67,9 @@ Step(r) ==
     \* a reader while another invocation is in flight (readers take no lock): the last completed run must still be
     \* what result show / log show return - the in-flight run has not saved its pointer yet
     [] r.ev = "inflight_result_show" ->
-          /\ Check(IF st.last = 0 THEN (IF r.rc = 0 THEN {"C13:result show during a run returned a document although no run has completed"} ELSE {})
-                   ELSE IF r.rc # 0 \/ r.run # st.last THEN {"C13:result show during a run does not return the last completed run"} ELSE {})
+          /\ LET tag == IF r.fault THEN "C13:" ELSE "C12:" IN
+             Check(IF st.last = 0 THEN (IF r.rc = 0 THEN {tag \o "result show during a run returned a document although no run has completed"} ELSE {})
+                   ELSE IF r.rc # 0 \/ r.run # st.last THEN {tag \o "result show during a run does not return the most recent completed run"} ELSE {})
           /\ UNCHANGED <<st, N, crashed, runs, beh>>
     [] OTHER          -> Check(ObsWhys(r)) /\ UNCHANGED <<st, N, crashed, runs, beh>>
 
